@@ -612,7 +612,7 @@ impl Mon {
             self.b.nb[ni].transfer_ticks = (post.transferee.unwrap_or(0), 0);
         }
         // target leaves the voters
-        if matches!(kind, CallKind::ApplyConf) && post.role == StateRole::Leader {
+        if matches!(kind, CallKind::ApplyConf(_)) && post.role == StateRole::Leader {
             if let Some(x) = pre.transferee {
                 // (a leader that removed itself in the same change is the separate matter F4)
                 if !post.conf.is_voter(x) && post.transferee.is_some() && post.conf.is_voter(id) {
@@ -745,8 +745,8 @@ impl Mon {
             let ids: HashSet<u64> = post.prs.iter().map(|p| p.id).collect();
             self.b.nb[ni].snap_out.retain(|k, _| ids.contains(k));
             // a membership change may remove and re-add a peer in one step: its progress is new
-            if matches!(kind, CallKind::ApplyConf) {
-                self.b.nb[ni].snap_out.retain(|k, _| pr_of(post, *k).map_or(false, |p| p.state == ProgressState::Snapshot));
+            if let CallKind::ApplyConf(recreated) = kind {
+                self.b.nb[ni].snap_out.retain(|k, _| !recreated.contains(k));
             }
         }
         let mut appends_with_entries: HashMap<u64, usize> = HashMap::new();
@@ -876,7 +876,7 @@ impl Mon {
             let n_any = appends_any.get(&f).copied().unwrap_or(0);
             let n_ent = appends_with_entries.get(&f).copied().unwrap_or(0);
             let from_f = from == Some(f);
-            let neutral = !from_f && !matches!(kind, CallKind::Knob | CallKind::ApplyConf);
+            let neutral = !from_f && !matches!(kind, CallKind::Knob | CallKind::ApplyConf(_));
             if pp.state == ProgressState::Snapshot && p.state == ProgressState::Snapshot && n_any > 0 {
                 self.violation("C13", "append-while-snapshot-outstanding", format!("leader {} sent an append to {} while a snapshot is outstanding", id, f), op);
             }
@@ -960,11 +960,9 @@ impl Mon {
             ));
         }
         // a membership change may remove and re-add a peer in one step: the new Progress has the configured window
-        if let CallKind::ApplyConf = kind {
-            for p in &post.prs {
-                if p.ins_count == 0 && p.matched == 0 {
-                    self.b.nb[ni].caps.remove(&p.id);
-                }
+        if let CallKind::ApplyConf(recreated) = kind {
+            for f in recreated {
+                self.b.nb[ni].caps.remove(f);
             }
         }
         // progress objects that disappeared lose their capacity model
@@ -1254,7 +1252,7 @@ impl Mon {
         }
     }
 
-    pub fn b_after_apply(&mut self, ni: usize, e: &Entry, new_conf: Option<&ConfState>, _app: &AppState, nodes: &[Node], op: usize) {
+    pub fn b_after_apply(&mut self, ni: usize, e: &Entry, new_conf: Option<&ConfState>, stale_conf_before: Option<&ConfView>, _app: &AppState, nodes: &[Node], op: usize) {
         let is_cc = e.get_entry_type() != EntryType::EntryNormal;
         if !is_cc {
             return;
@@ -1264,6 +1262,23 @@ impl Mon {
             None => return,
         };
         let conf = ConfView::from_cs(&rn.raft.prs().conf().to_conf_state());
+        // an entry at or below a snapshot the node's raft has already restored says nothing about the
+        // configuration at its index any more; what matters is that it leaves the restored one alone
+        if let Some(before) = stale_conf_before {
+            if *before != conf && (self.on(P09) || self.on(P15)) {
+                let prop = if self.on(P09) { "C09" } else { "C15" };
+                self.violation(
+                    prop,
+                    "stale-entry-altered-restored-configuration",
+                    format!(
+                        "node {}: applying the membership entry at index {}, which lies below a snapshot its raft had already restored, changed the restored configuration {:?} to {:?}",
+                        ni + 1, e.index, before, conf
+                    ),
+                    op,
+                );
+            }
+            return;
+        }
         let _ = new_conf;
         let who = self.b.conf_applied_by.entry(e.index).or_default();
         who.insert(ni);
